@@ -48,7 +48,7 @@ func runBounded(repo, vdir, prop, tier string, seed int) *BoundedResult {
 	data, _ := json.Marshal(ov)
 	ovPath := filepath.Join(work, "overlay.json")
 	os.WriteFile(ovPath, data, 0o644)
-	timeout := "240s"
+	timeout := "150s"
 	if tier == "thorough" {
 		timeout = "1500s"
 	}
@@ -81,6 +81,17 @@ func runBounded(repo, vdir, prop, tier string, seed int) *BoundedResult {
 		tail := string(out)
 		if len(tail) > 3000 {
 			tail = tail[len(tail)-3000:]
+		}
+		if strings.Contains(string(out), "panic: test timed out") {
+			// the code under test did not finish on some enumerated input (the harness itself needs
+			// seconds): a hang is a violation of the property, reported with the goroutine dump
+			res.Bound = "enumeration interrupted by the test timeout of " + timeout
+			res.Failures = []interface{}{map[string]interface{}{
+				"key":    "timeout",
+				"reason": "the harness did not finish within " + timeout + " (normally a few seconds): the code under test does not terminate on one of the enumerated inputs",
+				"output": tail,
+			}}
+			return res
 		}
 		res.Error = "harness produced no result: " + tail
 		if err != nil {
